@@ -1,4 +1,5 @@
 import Flowjaxv.Proofs.Tree
+import Flowjaxv.Proofs.WrapGen
 /-!
 # C12 — unwrap applies every wrapper exactly once; frozen parameters never move
 
@@ -12,6 +13,10 @@ loops.  Every statement is for ALL trees (any size, nesting depth, container wid
 `WrapFree f` (`.unwrap()` bodies return wrapper-free values on wrapper-free arguments) is the one
 semantic hypothesis of the first group; it is forced: a `Lambda` whose function *returns* a wrapper
 leaves that wrapper in the result of the real `unwrap` too.
+
+The section "generated bodies" instantiates the abstract `f` with the `.unwrap()` bodies GENERATED from
+`/repo/flowjax/wrappers.py` on every run (`Gen/Wrappers.lean`, lifted to the model's array leaves in `Model/WrapGen.lean`)
+and proves `WrapFree` and `SkUniform` for them, so the hypotheses of the first group are discharged for the real bodies.
 -/
 open PyTree
 
@@ -169,6 +174,77 @@ theorem conditioner_excludes_frozen (add : α → α → α) (t : Tree α) :
     have := unravel_ravel (partP t) []
     simp only [List.append_nil] at this
     rw [this, combine_part]
+
+/-! ## generated bodies: the abstract `.unwrap()` bodies instantiated from the source -/
+
+section generated
+variable {β : Type} [Add β] [Sub β] [Mul β] [Div β] [Neg β] [LT β] [LE β] [BEq β]
+  [OfNat β 0] [OfNat β 1] [OfNat β 2] [OfNat β 4] [OfScientific β]
+  [DecidableLT β] [DecidableLE β] [Transc β] [Inhabited β]
+
+/-- `NonTrainable.unwrap` as translated (`eqx.partition(tree, is_array_like)`, `lax.stop_gradient` of the array half,
+`eqx.combine`) is the identity on values for every lawful partition / combine pair; the model's own pair is lawful, and the
+clause `Model/Tree.lean` uses for `NonTrainable` nodes is that generated body. -/
+theorem gen_nontrainable_identity {τ : Type} (P : Wrappers.EqxPartition τ) (hP : P.Lawful) (t : τ)
+    (f : WrapFn β) (tag : Nat) (b : List Nat) (c : Tree β) :
+    (⟨t⟩ : Gen.Wr.NonTrainable τ).unwrap P = t ∧
+    (treePartition : Wrappers.EqxPartition (Tree β)).Lawful ∧
+    applyW f .nonTrainable tag b [c] = (⟨c⟩ : Gen.Wr.NonTrainable (Tree β)).unwrap treePartition :=
+  ⟨gen_nonTrainable_identity P hP t, treePartition_lawful, applyW_nonTrainable_eq_gen f tag b c⟩
+
+/-- `WrapFree` holds for the generated bodies (`PyTree.genWrapFn`): every bijection table, every scalar type, every `Lambda`
+function that itself returns wrapper-free values on wrapper-free arguments. -/
+theorem gen_wrapfn_wrapFree (bij : Nat → Bij β Unit β) (lam : Nat → List (Tree β) → Tree β)
+    (hl : ∀ tag cs, noWrapL cs = true → noWrap (lam tag cs) = true) : WrapFree (genWrapFn bij lam) :=
+  genWrapFn_wrapFree bij lam hl
+
+/-- `SkUniform` holds for the generated bodies: the skeleton of the value depends only on the skeleton of the arguments -/
+theorem gen_wrapfn_skUniform (bij : Nat → Bij β Unit β) (lam : Nat → List (Tree β) → Tree β)
+    (hl : ∀ tag cs cs', SkL cs cs' = true → Sk (lam tag cs) (lam tag cs') = true) : SkUniform (genWrapFn bij lam) :=
+  genWrapFn_skUniform bij lam hl
+
+/-- the bodies are value-level functions of the wrapper's own (already unwrapped) leaves: `Where` over three arrays is the
+elementwise generated `Where.unwrap` and keeps the identity of `if_true`; `WeightNormalization` over a weight matrix and a
+`(rows, 1)` scale is the generated matrix-level body; `BijectionReparam` is the generated `unwrap` (the bijection's `transform`)
+of every element; a `Lambda` is its function of the children. -/
+theorem gen_wrapfn_values (bij : Nat → Bij β Unit β) (lam : Nat → List (Tree β) → Tree β) (tag : Nat)
+    (i1 i2 i3 : Nat) (x1 x2 x3 : Bool) (c a b : Arr β) (cl al : List β) (v : β) (W S : List (List β)) (cs : List (Tree β)) :
+    genWrapFn bij lam .whereK tag [.arr i1 x1 c, .arr i2 x2 a, .arr i3 x3 b] = .arr i2 x2 (whereArr c a b) ∧
+    whereArr (.base cl) (.base al) (.base [v])
+      = .base (List.zipWith (fun c a => (⟨c != 0, a, v⟩ : Gen.Wr.Where β).unwrap) cl al) ∧
+    genWrapFn bij lam .weightNorm tag [.arr i1 x1 (Arr.ofMatrix W), .arr i2 x2 (Arr.ofMatrix S)]
+      = .arr i1 x1 (Arr.ofMatrix (Gen.Wr.WeightNormalization.unwrap ⟨W, colOf S⟩)) ∧
+    genWrapFn bij lam .reparam tag [.arr i1 x1 a, .static i2]
+      = .arr i1 x1 (a.map fun x => (⟨x, bij i2⟩ : Gen.Wr.BijectionReparam β β).unwrap) ∧
+    genWrapFn bij lam .lambda tag cs = lam tag cs := by
+  refine ⟨rfl, whereArr_base_scalar cl al v, ?_, rfl, rfl⟩
+  rw [genWrapFn_weightNorm, wnArr_matrix]
+
+/-- hence the first group of theorems holds for the generated bodies without any hypothesis on them: the result of `unwrap` has no
+wrapper node, `unwrap` is idempotent, a second pass applies nothing — every tree, every bijection table, every well-behaved
+`Lambda` function. -/
+theorem gen_unwrap_no_wrappers (bij : Nat → Bij β Unit β) (lam : Nat → List (Tree β) → Tree β)
+    (hl : ∀ tag cs, noWrapL cs = true → noWrap (lam tag cs) = true) (t : Tree β) :
+    noWrap (unwrap (genWrapFn bij lam) t) = true ∧
+    unwrap (genWrapFn bij lam) (unwrap (genWrapFn bij lam) t) = unwrap (genWrapFn bij lam) t ∧
+    unwrapCount (genWrapFn bij lam) (unwrap (genWrapFn bij lam) t) = [] :=
+  have hf := genWrapFn_wrapFree bij lam hl
+  ⟨unwrap_no_wrappers _ hf t, unwrap_idempotent _ hf t, unwrap_second_pass_applies_nothing _ hf t⟩
+
+/-- and slicing commutes with `unwrap` for the generated bodies under the batch-shape conditions `WBgs` alone -/
+theorem gen_unwrap_vmapped (bij : Nat → Bij β Unit β) (lam : Nat → List (Tree β) → Tree β)
+    (hl : ∀ tag cs cs', SkL cs cs' = true → Sk (lam tag cs) (lam tag cs') = true)
+    (ns is : List Nat) (t : Tree β) (hi : IdxLt is ns) (h : WBgs (genWrapFn bij lam) ns t) :
+    sliceTs is (unwrap (genWrapFn bij lam) t) = unwrap (genWrapFn bij lam) (sliceTs is t) :=
+  unwrap_vmapped_uniform _ (genWrapFn_skUniform bij lam hl) ns is t hi h
+
+/-- the hypotheses on the `Lambda` function are satisfiable (a `Lambda` returning the tuple of its arguments) -/
+theorem gen_wrapfn_instance (bij : Nat → Bij β Unit β) :
+    WrapFree (genWrapFn bij fun _ cs => .node cs) ∧ SkUniform (genWrapFn bij fun _ cs => .node cs) :=
+  ⟨genWrapFn_wrapFree bij _ (fun _ cs h => by simpa [noWrap] using h),
+    genWrapFn_skUniform bij _ (fun _ cs cs' h => by simpa [Sk] using h)⟩
+
+end generated
 
 /-! ## non-vacuity: the wrapper nest of `block_autoregressive_linear` (BNAF), a vmapped nest -/
 
